@@ -7,6 +7,7 @@ import M3d.Lemmas.TriScale
 import M3d.Lemmas.TriWinding
 import M3d.Lemmas.TriProfileMfd
 import M3d.Lemmas.TriPlace
+import M3d.Lemmas.TriFace
 import M3d.Lemmas.Surface
 /-!
 # C14 — triangulation covers the polygon exactly
@@ -462,6 +463,101 @@ theorem orient_affine (a b cc d e f : K) (p q r : P2 K) :
     orient (affine a b cc d e f p) (affine a b cc d e f q) (affine a b cc d e f r)
       = (a * d - b * cc) * orient p q r :=
   orient_affine' a b cc d e f p q r
+
+/-! ### the chart of `TriangulateFace`: which vertex supplies `basis2`
+
+A planar face is written in plane coordinates: `polygon = cs.map (planePt p0 u w)`, `cs` starting with
+`(0,0), (1,0)` (so `u = polygon[1] − polygon[0]`), `w` any in-plane vector not parallel to `u`
+(`0 < lagr u w`, Lagrange's `|u|²|w|² − (u·w)² = |u×w|²`).  Every planar face with `polygon[0] ≠ polygon[1]`
+that spans its plane has this form. -/
+
+/-- **`face_chart_orient`.**  For ANY two vectors `b1`, `b2` — normalised or not, exact, rounded, or the
+normalised rounding noise left by `ProjectOut` of a colinear vertex — the chart
+`p ↦ (b1·(p−p0), b2·(p−p0))` that `TriangulateFace` builds multiplies the orientation determinant of every
+three points of the face's plane by ONE number, `D = (b1·u)(b2·w) − (b1·w)(b2·u)`.  So the 2-D polygon
+handed to `Triangulate` is an orientation-faithful image of the face (same colinearities, same convex /
+reflex vertices up to a global flip, same point-in-triangle relations, hence the same valid triangulations)
+exactly when `D ≠ 0`; when `D = 0` — e.g. `b2` parallel to `b1`, second part — it is a subset of a line. -/
+theorem face_chart_orient (b1 b2 p0 u w : P3 K) (a b c : P2 K) :
+    orient
+      (⟨dot3 b1 (sub3 (planePt p0 u w a) p0), dot3 b2 (sub3 (planePt p0 u w a) p0)⟩ : P2 K)
+      ⟨dot3 b1 (sub3 (planePt p0 u w b) p0), dot3 b2 (sub3 (planePt p0 u w b) p0)⟩
+      ⟨dot3 b1 (sub3 (planePt p0 u w c) p0), dot3 b2 (sub3 (planePt p0 u w c) p0)⟩
+      = (dot3 b1 u * dot3 b2 w - dot3 b1 w * dot3 b2 u) * orient a b c ∧
+    ∀ k : K, dot3 b1 u * dot3 (scale3 k b1) w - dot3 b1 w * dot3 (scale3 k b1) u = 0 := by
+  refine ⟨chart_orient b1 b2 p0 u w a b c, fun k => ?_⟩
+  simp only [dot3, scale3]; ring
+
+/-- **`face_chart_faithful`** — the chart the CURRENT `TriangulateFace` computes (exact side; model
+`faceBasisIdx` / `faceChart`: `basis2` = residual of the first vertex of `polygon[2:]` with a non-zero
+residual, what the `dot < minDot` selection picks) is orientation-faithful on EVERY planar face that spans
+its plane, **however many colinear vertices the face starts with**: the selected vertex `j ≥ 2` is the first
+one off the line `polygon[0] polygon[1]` (all vertices `2 … j−1` are ON that line and are skipped), the
+chart is the linear image `chartMap u w mu` of the plane coordinates (`mu ≠ 0` the height of vertex `j`), and
+every orientation determinant is multiplied by the non-zero constant `|u|²·mu·|u×w|²`.  This is what makes
+`ok` the required answer of the `face` / `off` kinds for faces whose first three vertices are colinear. -/
+theorem face_chart_faithful (p0 u w : P3 K) (huw : 0 < lagr u w) (cs : List (P2 K))
+    (hspan : ∃ q ∈ cs, q.y ≠ 0) :
+    ∃ j mu, faceBasisIdx ((⟨0, 0⟩ :: ⟨1, 0⟩ :: cs).map (planePt p0 u w)) = some j ∧
+      2 ≤ j ∧ j < cs.length + 2 ∧
+      mu = ((⟨0, 0⟩ :: ⟨1, 0⟩ :: cs).getD j ⟨0, 0⟩).y ∧ mu ≠ 0 ∧
+      (∀ k, 2 ≤ k → k < j → ((⟨0, 0⟩ :: ⟨1, 0⟩ :: cs).getD k ⟨0, 0⟩).y = 0) ∧
+      faceChart ((⟨0, 0⟩ :: ⟨1, 0⟩ :: cs).map (planePt p0 u w))
+        = some ((⟨0, 0⟩ :: ⟨1, 0⟩ :: cs).map (chartMap u w mu)) ∧
+      dot3 u u * (mu * lagr u w) ≠ 0 ∧
+      ∀ a b c : P2 K, orient (chartMap u w mu a) (chartMap u w mu b) (chartMap u w mu c)
+        = (dot3 u u * (mu * lagr u w)) * orient a b c := by
+  have hlt : cs.findIdx (fun q => decide (q.y ≠ 0)) < cs.length := by
+    apply List.findIdx_lt_length_of_exists
+    obtain ⟨q, hq, hy⟩ := hspan
+    exact ⟨q, hq, by simpa using hy⟩
+  have hj : faceBasisIdx ((⟨0, 0⟩ :: ⟨1, 0⟩ :: cs).map (planePt p0 u w))
+      = some (cs.findIdx (fun q => decide (q.y ≠ 0)) + 2) := by
+    rw [faceBasisIdx_plane huw, if_pos hlt]
+  have hget : ∀ k, ((⟨0, 0⟩ :: ⟨1, 0⟩ :: cs : List (P2 K)).getD (k + 2) ⟨0, 0⟩) = cs.getD k ⟨0, 0⟩ := by
+    intro k; simp [List.getD_eq_getElem?_getD]
+  have hmu : ((⟨0, 0⟩ :: ⟨1, 0⟩ :: cs : List (P2 K)).getD
+      (cs.findIdx (fun q => decide (q.y ≠ 0)) + 2) ⟨0, 0⟩).y ≠ 0 := by
+    rw [hget, List.getD_eq_getElem?_getD, List.getElem?_eq_getElem hlt]
+    have := List.findIdx_getElem (w := hlt)
+    simpa using this
+  refine ⟨_, _, hj, by omega, by omega, rfl, hmu, ?_, ?_, ?_, ?_⟩
+  · intro k h2 hk
+    obtain ⟨k', rfl⟩ : ∃ k', k = k' + 2 := ⟨k - 2, by omega⟩
+    have hk' : k' < cs.findIdx (fun q => decide (q.y ≠ 0)) := by omega
+    have := List.not_of_lt_findIdx hk'
+    rw [hget, List.getD_eq_getElem?_getD, List.getElem?_eq_getElem (by omega)]
+    simpa using this
+  · unfold faceChart
+    rw [hj, Option.map_some, faceChartAt_plane]
+  · exact mul_ne_zero (dot3_pos_of_lagr_pos huw).ne' (mul_ne_zero hmu huw.ne')
+  · intro a b c
+    exact orient_chartMap u w _ a b c
+
+/-- **`face_chart_colinear_vertex_panics`** — why the selection must skip colinear vertices.  If `basis2`
+is taken from a vertex `j` ON the line `polygon[0] polygon[1]` (in particular `j = 2` when the face starts with
+three colinear vertices: what "take the first candidate" does as soon as the residual of that vertex is not
+recognised as zero), the chart maps the whole face into the line `Y = 0`, and the model of `Triangulate`
+panics ("polygon does not span a 2-D space") — on every face, for every fuel. -/
+theorem face_chart_colinear_vertex_panics (sd : Bool) (fuel : Nat) (p0 u w : P3 K) (cs : List (P2 K)) (j : Nat)
+    (hj : ((⟨0, 0⟩ :: ⟨1, 0⟩ :: cs).getD j ⟨0, 0⟩).y = 0) :
+    triangulate sd (fuel + 1) (faceChartAt ((⟨0, 0⟩ :: ⟨1, 0⟩ :: cs).map (planePt p0 u w)) j) = none := by
+  rw [faceChartAt_plane, hj]
+  apply triangulate_none_of_flat
+  intro a ha
+  obtain ⟨q, _, rfl⟩ := List.mem_map.1 ha
+  simp [chartMap]
+
+/-- Non-vacuity / regression (the face of the seeded change, exact coordinates): the pentagon
+`(0,0) (1,0) (2,0) (2,2) (0,2)` in the plane through `(1,2,3)` spanned by `(1,2,2)`, `(2,−1,1)` starts
+with three colinear vertices; the model selection takes vertex 3, its chart is triangulated; the chart
+from vertex 2 makes `Triangulate` panic. -/
+example :
+    let poly : List (P3 Rat) := [⟨1, 2, 3⟩, ⟨2, 4, 5⟩, ⟨3, 6, 7⟩, ⟨7, 4, 9⟩, ⟨5, 0, 5⟩]
+    faceBasisIdx poly = some 3 ∧
+    (faceChart poly).map (fun ch => (triangulate false 10 ch).map List.length) = some (some 2) ∧
+    triangulate false 10 (faceChartAt poly 2) = none := by
+  decide +kernel
 
 /-! ## `ProfileMesh` -/
 
